@@ -73,7 +73,7 @@ impl vstd::std_specs::cmp::OrdSpecImpl for FringeNode {
 
 
 // ---- A5: graphrs functions left unverified (iterator pipelines / closures over &mut / rayon), with ASSUMED contracts ----
-//@ extract fn src/algorithms/shortest_path/dijkstra.rs get_shortest_path_infos
+//@ extract fn src/algorithms/shortest_path/dijkstra.rs get_shortest_path_infos nobody
 //@ head
 #[verifier::external_body]
 //@ rewrite
@@ -329,21 +329,21 @@ for adj in row_it: graph.get_successor_nodes_by_index(&v)
 //@ head
 #[verifier::external]
 //@ end
-//@ extract fn src/algorithms/shortest_path/dijkstra.rs get_contractory_paths_error
+//@ extract fn src/algorithms/shortest_path/dijkstra.rs get_contractory_paths_error nobody
 //@ head
 #[verifier::external_body]
 //@ end
-//@ extract fn src/algorithms/shortest_path/dijkstra.rs add_u_to_v_paths_and_append_v_paths_to_u_paths
+//@ extract fn src/algorithms/shortest_path/dijkstra.rs add_u_to_v_paths_and_append_v_paths_to_u_paths nobody
 //@ head
 #[verifier::external_body]
 //@ end
-//@ extract fn src/algorithms/shortest_path/dijkstra.rs convert_shortest_path_info_index_to_t
+//@ extract fn src/algorithms/shortest_path/dijkstra.rs convert_shortest_path_info_index_to_t nobody
 //@ head
 #[verifier::external_body]
 //@ end
 
 // A5: the full Dijkstra (path bookkeeping uses closures over &mut) and the index->name translation are left unverified
-//@ extract fn src/algorithms/shortest_path/dijkstra.rs dijkstra
+//@ extract fn src/algorithms/shortest_path/dijkstra.rs dijkstra nobody
 //@ head
 #[verifier::external_body]
 //@ rewrite
@@ -358,7 +358,7 @@ for adj in row_it: graph.get_successor_nodes_by_index(&v)
         target.is_some() ==> target.unwrap() < graph.n(),
 //@ end
 
-//@ extract fn src/algorithms/shortest_path/dijkstra.rs convert_shortest_path_info_vec_to_t_map
+//@ extract fn src/algorithms/shortest_path/dijkstra.rs convert_shortest_path_info_vec_to_t_map nobody
 //@ head
 #[verifier::external_body]
 //@ rewrite
